@@ -178,6 +178,120 @@ def cases(tier, seed):
             else:
                 d["q"] = [rng.choice((0, 10, 25, 50, 50.0, 62.5, 90, 100)) for _ in range(rng.randint(1, 4))]
             yield d
+    # ---- parameter-audit part (own stream; the streams above are unchanged) ------------------------
+    xr = random.Random(seed * 6151 + 3232)
+    for _ in range(1000 if tier == "quick" else 27000):
+        yield _extra_a(xr) if xr.random() < 0.55 else _extra_b(xr)
+
+
+XDTYPES = ADTYPES + ["int16", "int32", "uint16", "uint32", "uint64", "int64", "float64"]
+ALLM = METHODS + ["inverted_cdf", "averaged_inverted_cdf", "closest_observation", "interpolated_inverted_cdf", "hazen",
+                  "weibull", "median_unbiased", "normal_unbiased"]
+
+
+def _extra_a(rng):
+    """percentile with non-default spellings / internal methods / q forms / sizes / layouts (one case description)."""
+    d = {"part": "A", "x": 1, "seed": rng.randrange(2 ** 31), "dtype": rng.choice(XDTYPES),
+         "flavour": rng.choice(("alphabet", "wide", "wide", "sorted")), "method": rng.choice(METHODS)}
+    u = rng.random()
+    if u < 0.3:        # size classes: a block of > 255 elements (also not the last one), >= 12 blocks
+        n = rng.choice((300, 520, 700, 1100))
+        sub = rng.choice(("big", "many", "mixed"))
+        if sub == "big":
+            a = rng.randint(256, n - 1)
+            ch = [a, n - a] if rng.random() < 0.5 else [n - a, a]
+            if n - a > 300 and rng.random() < 0.5:
+                ch = [a, 7, n - a - 7]
+        elif sub == "many":
+            cuts = sorted(rng.sample(range(1, n), rng.randint(11, 40)))
+            ch = [y - x_ for x_, y in zip([0] + cuts, cuts + [n])]
+        else:
+            big = rng.randint(256, n - 30)
+            cuts = sorted(rng.sample(range(1, n - big), rng.randint(2, 12)))
+            small = [y - x_ for x_, y in zip([0] + cuts, cuts + [n - big])]
+            k = rng.randint(0, len(small) - 1)
+            ch = small[:k] + [big] + small[k:]
+    else:
+        n = rng.choice((2, 3, 5, 8, 13, 20, 33, 60))
+        ch = list(A.rand_comp(rng, n))
+    if rng.random() < 0.3:   # empty blocks (first / interior / last)
+        for _ in range(rng.randint(1, 3)):
+            ch.insert(rng.randint(0, len(ch)), 0)
+    d["n"], d["chunks"] = n, ch
+    im = rng.choice((None, None, "dask", "default", "tdigest"))
+    kw = rng.choice(("method", "method", "method", "interpolation", "legacy", "legacy+interpolation"))
+    if kw == "legacy":       # percentile(a, q, "dask"): the pre-2022 spelling of internal_method; interpolation is then linear
+        d["method"] = "linear"
+    if kw.startswith("legacy") and im is None:
+        im = "dask"
+    if im == "tdigest" and d["method"] == "linear" and rng.random() < 0.85:
+        im = "dask"          # tdigest + linear needs crick (not installed): keep only a few of these
+    d["im"], d["kw"] = im, kw
+    d["route"] = "from_array" if 0 in ch else rng.choice(("from_array", "from_array", "concat", "reversed", "rechunk"))
+    v = rng.random()
+    if v < 0.2:
+        d["q"] = rng.choice((0, 100, 50, 37.5, 25))
+        d["qform"] = rng.choice(("py", "npfloat", "npint" if isinstance(d["q"], int) else "npfloat"))
+    else:
+        qs = [rng.choice((rng.randint(0, 100), round(rng.uniform(0, 100), 2))) for _ in range(rng.randint(0, 5))]
+        if v < 0.3:
+            qs = []                      # empty request
+        elif v < 0.5:
+            qs = qs + qs[:2] + [0, 0, 100, 100]       # repeated q values
+        else:
+            qs += [0, 100]
+        d["q"] = sorted(qs)
+        d["qform"] = rng.choice(("list", "nparray", "nparray", "tuple"))
+    return d
+
+
+def _extra_b(rng):
+    """nanpercentile: all 13 methods, tuple / None axis, weights, q forms, 4-d, long reduced axes, more dtypes."""
+    u = rng.random()
+    if u < 0.15:
+        long = rng.choice((256, 300, 1000, 1001, 1300))
+        shape = [rng.randint(1, 3), long] if rng.random() < 0.7 else [long, rng.randint(1, 3)]
+    else:
+        nd = rng.choice((1, 2, 3, 3, 4, 4))
+        shape = rng.sample(range(1, 8), nd)         # pairwise different lengths
+    nd = len(shape)
+    d = {"part": "B", "x": 1, "shape": shape, "seed": rng.randrange(2 ** 31),
+         "dtype": rng.choice(("float64", "float64", "float32", "int64", "uint8", "int8", "int32")),
+         "flavour": rng.choice(("nan", "nan", "allnan", "clean", "normal")),
+         "chunks": [list(c) if n <= 60 else _long_chunks(rng, n) for c, n in zip(A.rand_chunks(rng, [min(s, 60) for s in shape]), shape)],
+         "method": rng.choice(ALLM), "keepdims": rng.random() < 0.3,
+         "kw": "interpolation" if rng.random() < 0.1 else "method", "weights": None}
+    v = rng.random()
+    if v < 0.35 and nd >= 2:
+        d["axis"] = sorted(rng.sample(range(nd), rng.randint(2, nd)))
+        if rng.random() < 0.4:
+            d["axis"] = [a - nd if rng.random() < 0.5 else a for a in d["axis"]]
+    elif v < 0.43:
+        d["axis"] = None                    # documented only for a single block
+        d["chunks"] = [[s] for s in shape]
+    elif v < 0.7:
+        d["axis"] = nd - 1
+    else:
+        d["axis"] = rng.randrange(-nd, nd)
+    if rng.random() < 0.25 and d["kw"] == "method":
+        d["method"] = "inverted_cdf"
+        d["weights"] = rng.choice(("full-np", "full-dask", "1d-np", "1d-dask") if isinstance(d["axis"], int) else ("full-np", "full-dask"))
+    w = rng.random()
+    if w < 0.4:
+        d["q"] = rng.choice((0, 100, 50, 25, 33.3, 75.0))
+        d["qform"] = rng.choice(("py", "py", "npfloat"))
+    else:
+        d["q"] = [rng.choice((0, 10, 25, 50, 50.0, 62.5, 90, 100)) for _ in range(rng.randint(1, 4))]
+        d["qform"] = rng.choice(("list", "nparray", "tuple"))
+    return d
+
+
+def _long_chunks(rng, n):
+    k = rng.choice((1, 2, 3))
+    if k == 1:
+        return [n]
+    cuts = sorted(rng.sample(range(1, n), k - 1))
+    return [y - x_ for x_, y in zip([0] + cuts, cuts + [n])]
 
 
 # --------------------------------------------------------------------------- data
@@ -195,6 +309,12 @@ def _data_a(case):
             a = (r.normal(size=n) * 10.0 ** int(r.integers(-2, 4))).astype(dtype)
         elif dtype == "int64":
             a = r.integers(-10 ** 6, 10 ** 6, n).astype(dtype)
+        elif dtype in ("int16", "uint16"):
+            a = r.integers(0 if unsigned else -8000, 8001, n).astype(dtype)      # spans below half the range (see int8)
+        elif dtype in ("int32", "uint32", "uint64"):
+            a = r.integers(0 if unsigned else -10 ** 6, 10 ** 6, n).astype(dtype)
+            if dtype == "uint64" and r.random() < 0.5:
+                a = a + np.uint64(2 ** 40)
         else:
             # int8 stays within [-60, 60]: np.percentile itself overflows in `b - a` for int8 spans > 127 (Calibration)
             a = r.integers(0 if unsigned else -60, 101 if unsigned else 61, n).astype(dtype)
@@ -232,9 +352,10 @@ def _data_b(case):
                 a[r.integers(0, n)] = -np.inf
     a = a.reshape(shape)
     if flav == "allnan" and dtype.startswith("float"):
-        ax = case["axis"] % len(shape)
+        axl = case["axis"] if isinstance(case["axis"], list) else list(range(len(shape))) if case["axis"] is None else [case["axis"]]
         idx = [int(r.integers(0, s)) for s in shape]
-        idx[ax] = slice(None)
+        for ax in axl:
+            idx[ax % len(shape)] = slice(None)
         a[tuple(idx)] = np.nan
     return a
 
@@ -255,16 +376,63 @@ class _Raised(Exception):
         self.exc = exc
 
 
-def _eval_a(x, chunks, q, m):
+def _mk_dx(x, chunks, route="from_array"):
+    """the same data cut into the same blocks, reached by different graph shapes"""
+    import dask.array as da
+
+    ch = tuple(chunks[0])
+    if route == "concat" and len(ch) >= 2:
+        k = len(ch) // 2
+        s = int(sum(ch[:k]))
+        return da.concatenate([da.from_array(x[:s], chunks=(ch[:k],)), da.from_array(x[s:], chunks=(ch[k:],))])
+    if route == "reversed":
+        return da.from_array(x[::-1].copy(), chunks=(ch[::-1],))[::-1]
+    if route == "rechunk":
+        return da.from_array(x, chunks=(len(x),)).rechunk((ch,))
+    return da.from_array(x, chunks=(ch,))
+
+
+def _qobj(q, form):
+    if form == "nparray":
+        return np.asarray(q, dtype="int64" if (q and all(isinstance(v, int) for v in q)) else "float64")
+    if form == "tuple":
+        return tuple(q)
+    if form == "npfloat":
+        return np.float64(q)
+    if form == "npint":
+        return np.int64(q)
+    return q
+
+
+def _call_a(dx, q, m, opts):
+    """da.percentile with the case's spelling of (method, internal_method)"""
+    import dask.array as da
+
+    im, form = opts.get("im"), opts.get("kw", "method")
+    if form == "interpolation":
+        kw = {"interpolation": m}
+    elif form == "legacy":                  # m == "linear"
+        kw = {"method": im}
+    elif form == "legacy+interpolation":
+        kw = {"method": im, "interpolation": m}
+    else:
+        kw = {"method": m}
+    if im is not None and not form.startswith("legacy"):
+        kw["internal_method"] = im
+    return da.percentile(dx, _qobj(q, opts.get("qform", "list")), **kw)
+
+
+def _eval_a(x, chunks, q, m, opts=None):
     """Run the real da.percentile and apply the statement's checks.
     -> (lazy array, result as float64 vector, tolerance, [(symptom, message)])"""
     import dask.array as da
 
+    opts = opts or {}
     scalar = not isinstance(q, list)
     qv = np.atleast_1d(np.asarray(q, dtype="float64"))
-    dx = da.from_array(x, chunks=chunks)
     try:
-        r = da.percentile(dx, q, method=m)
+        dx = _mk_dx(x, chunks, opts.get("route", "from_array"))
+        r = _call_a(dx, q, m, opts)
         if not isinstance(r, da.Array):
             return None, None, 0.0, [("result-not-a-dask-array", "got %r" % (type(r),))]
         rv = np.asarray(r.compute(scheduler="sync"))
@@ -324,16 +492,33 @@ def _run_a(case, ctx):
     has_inf = bool(x.dtype.kind == "f" and np.isinf(x).any())
     ctx.op("percentile:" + m)
     ctx.nontrivial = len(chunks[0]) >= 2
-    ctx.sig = ("A", x.tolist(), str(x.dtype), case["chunks"], m, q)
+    opts = {k: case[k] for k in ("im", "kw", "qform", "route") if k in case} if case.get("x") else {}
+    ctx.sig = ("A", x.tolist(), str(x.dtype), case["chunks"], m, q) if not opts else \
+        ("A", case["seed"], case["n"], case["flavour"], str(x.dtype), case["chunks"], m, q, sorted(opts.items(), key=str))
     ctx.distinct("method_chunked", (m, ctx.nontrivial, scalar))
     feat = "method=%s&%s" % (m, "multi-chunk" if ctx.nontrivial else "single-chunk")
+    needs_crick = opts.get("im") == "tdigest" and m == "linear"
+    if opts:
+        _count_a(ctx, case, opts, m, chunks, q)
     try:
-        r, pf, tol, symptoms = _eval_a(x, chunks, q, m)
+        r, pf, tol, symptoms = _eval_a(x, chunks, q, m, opts)
     except NotImplementedError as ex:
         ctx.unsupported(str(ex))
         return
     except _Raised as ex:
-        ctx.exception(ex.exc, prefix="percentile:" + feat + ("&inf" if has_inf else ""))
+        if needs_crick and "crick" in str(ex.exc):
+            ctx.envlimited("internal_method='tdigest' with method='linear' needs crick, which is not installed")
+            return
+        # the spelling facets are code paths of their own (argument shuffling before any percentile is computed)
+        if opts.get("kw") == "legacy":
+            pre = "percentile:legacy-positional-internal-method"
+        elif opts.get("im") == "tdigest":
+            pre = "percentile:internal_method=tdigest&method!=linear"
+        elif isinstance(q, list) and not q:
+            pre = "percentile:empty-q"
+        else:
+            pre = "percentile:" + feat + ("&inf" if has_inf else "") + ("&empty-chunk" if 0 in chunks[0] else "")
+        ctx.exception(ex.exc, prefix=pre)
         return
     ctx.count("percentile_results")
     if pf is not None:
@@ -351,7 +536,7 @@ def _run_a(case, ctx):
             lo = (fin.min() if fin.size else 0) - 1
             x2 = np.where(np.isposinf(x), hi, np.where(np.isneginf(x), lo, x)).astype(x.dtype)
             try:
-                without_inf = {sy for sy, _ in _eval_a(x2, chunks, q, m)[3]}
+                without_inf = {sy for sy, _ in _eval_a(x2, chunks, q, m, opts)[3]}
             except Exception:  # noqa: BLE001
                 without_inf = set()
         detail = {"data": x.tolist(), "chunks": case["chunks"], "q": qv.tolist(),
@@ -368,8 +553,45 @@ def _run_a(case, ctx):
         import dask.array as da
 
         param, q2, m2 = _sibling_qm(case, q, m)
-        S.check(ctx, "percentile", param, r, (lambda: da.percentile(da.from_array(x, chunks=chunks), q2, method=m2)),
+        if opts.get("kw") == "legacy":
+            m2 = m                                   # this spelling has no interpolation argument to vary
+            if param == "method":
+                param, q2 = "q", ([50] if isinstance(q, list) else (50 if q != 50 else 25))
+        S.check(ctx, "percentile", param, r,
+                (lambda: _call_a(_mk_dx(x, chunks, opts.get("route", "from_array")), q2, m2, opts)),
                 describe={"q": q2, "method": m2})
+
+
+def _count_a(ctx, case, opts, m, chunks, q):
+    """counters of the parameter-audit families (floors: a refactor of the generator must not silently lose a class)"""
+    ch = chunks[0]
+    if opts.get("im") in ("dask", "default") and not opts.get("kw", "").startswith("legacy"):
+        ctx.count("percentile_internal_method_kw")
+    if opts.get("im") == "tdigest" and m != "linear":
+        ctx.count("percentile_tdigest_fallback")
+    if opts.get("kw") == "interpolation":
+        ctx.count("percentile_interpolation_kw")
+    if opts.get("kw", "").startswith("legacy"):
+        ctx.count("percentile_legacy_positional")
+    if opts.get("qform") in ("nparray", "tuple", "npfloat", "npint"):
+        ctx.count("percentile_q_not_list_or_python_scalar")
+    if isinstance(q, list) and not q:
+        ctx.count("percentile_empty_q")
+    if isinstance(q, list) and len(set(q)) < len(q):
+        ctx.count("percentile_repeated_q")
+    if max(ch) > 255:
+        ctx.count("percentile_block_gt_255")
+        if ch[-1] <= 255 or sum(1 for c in ch if c > 255) >= 2:
+            ctx.count("percentile_block_gt_255_not_last")
+    if len(ch) >= 12:
+        ctx.count("percentile_ge_12_blocks")
+    if 0 in ch:
+        ctx.count("percentile_empty_block")
+    if opts.get("route") not in (None, "from_array"):
+        ctx.count("percentile_not_from_array")
+    if case["dtype"] in ("int16", "int32", "uint16", "uint32", "uint64"):
+        ctx.count("percentile_further_dtypes")
+    ctx.distinct("percentile_spelling", (opts.get("kw"), opts.get("im"), m))
 
 
 def _sibling_qm(case, q, m):
@@ -397,14 +619,49 @@ def _close(a, b, tol):
     return abs(a - b) <= tol
 
 
-def _eval_b(x, chunks, q, axis, m, kd):
+def _weights_b(x, chunks, axis, kind, seed):
+    """(weights for NumPy, weights for dask).  np.nanpercentile only takes weights of the shape of the array, so the
+    reference of 1-d weights (along the reduced axis) is their broadcast."""
+    import dask.array as da
+
+    r = np.random.default_rng(seed + 11)
+    if kind.startswith("full"):
+        w = r.integers(1, 5, x.shape).astype("float64")
+        return w, (da.from_array(w, chunks=chunks) if kind.endswith("dask") else w)
+    ax = axis % x.ndim
+    w1 = r.integers(1, 5, x.shape[ax]).astype("float64")
+    sh = [1] * x.ndim
+    sh[ax] = x.shape[ax]
+    wf = np.broadcast_to(w1.reshape(sh), x.shape).copy()
+    return wf, (da.from_array(w1, chunks=(chunks[ax],)) if kind.endswith("dask") else w1)
+
+
+def _call_b(dx, q, axis, m, kd, opts, wd=None):
+    import dask.array as da
+
+    kw = {"keepdims": kd}
+    if axis is not None or not opts:
+        kw["axis"] = tuple(axis) if isinstance(axis, list) else axis
+    kw["interpolation" if opts.get("kw") == "interpolation" else "method"] = m
+    if wd is not None:
+        kw["weights"] = wd
+    return da.nanpercentile(dx, _qobj(q, opts.get("qform", "list")), **kw)
+
+
+def _eval_b(x, chunks, q, axis, m, kd, opts=None, seed=0):
     """-> (lazy array, computed value, None | (symptom, message)); numpy refusing -> _Reject"""
     import dask.array as da
 
-    e = np.asarray(np.nanpercentile(x, q, axis=axis, method=m, keepdims=kd))
+    opts = opts or {}
+    wn = wd = None
+    if opts.get("weights"):
+        wn, wd = _weights_b(x, chunks, axis, opts["weights"], seed)
+    nkw = {} if wn is None else {"weights": wn}
+    e = np.asarray(np.nanpercentile(x, _qobj(q, opts.get("qform", "list")), axis=tuple(axis) if isinstance(axis, list) else axis,
+                                    method=m, keepdims=kd, **nkw))
     dx = da.from_array(x, chunks=chunks)
     try:
-        r = da.nanpercentile(dx, q, axis=axis, method=m, keepdims=kd)
+        r = _call_b(dx, q, axis, m, kd, opts, wd)
         rv = np.asarray(r.compute(scheduler="sync"))
     except NotImplementedError:
         raise
@@ -419,7 +676,7 @@ def _eval_b(x, chunks, q, axis, m, kd):
     # Calibration (lead): for a float32 input and a LIST q NumPy's own result dtype depends on the data
     # (float64 when a lane holds NaN, float32 otherwise: np.nanpercentile applies np.percentile lane by lane),
     # so the dtype facet is only demanded where NumPy's rule is content independent.
-    dtype_defined = not (isinstance(q, list) and x.dtype == np.dtype("float32"))
+    dtype_defined = not (isinstance(q, list) and x.dtype == np.dtype("float32"))     # (q stays a list in the case; any vector form)
     mm = compare_arrays(rv, e, exact=False, n=4, scale=scale, factor=factor, check_dtype=dtype_defined)
     if mm is None and not dtype_defined and rv.dtype not in (np.dtype("float32"), np.dtype("float64")):
         mm = ("dtype", "dtype %s is neither float32 nor float64" % rv.dtype)
@@ -434,17 +691,28 @@ def _run_b(case, ctx):
     x = _data_b(case)
     chunks = A.chunks_of_desc(case["chunks"])
     axis, q, m, kd = case["axis"], case["q"], case["method"], case["keepdims"]
-    ax = axis % x.ndim
-    fast = x.ndim > 1 and ax == x.ndim - 1 and m == "linear"
+    opts = {k: case[k] for k in ("kw", "qform", "weights") if case.get(k) is not None} if case.get("x") else {}
+    axes = tuple(range(x.ndim)) if axis is None else tuple(sorted(a % x.ndim for a in (axis if isinstance(axis, list) else [axis])))
+    ax = axes[0]
+    fast = (x.ndim > 1 and axes == (x.ndim - 1,) and m == "linear" and x.shape[-1] <= 1000 and not opts.get("weights"))
     path = "fast-path" if fast else "numpy-path"
+    # further code paths of the audit families (each is a branch of its own in nanquantile / _custom_nanquantile)
+    if opts.get("weights"):
+        path += "&weights=" + opts["weights"].split("-")[0]
+    if isinstance(axis, list):
+        path += "&axis=tuple"
+    elif axis is None:
+        path += "&axis=None"
     has_inf = bool(x.dtype.kind == "f" and np.isinf(x).any())
-    allnan = np.isnan(x).all(axis=ax, keepdims=True) if x.dtype.kind == "f" else None
+    allnan = np.isnan(x).all(axis=axes, keepdims=True) if x.dtype.kind == "f" else None
+    if opts:
+        _count_b(ctx, case, x, chunks, axes, m, opts)
     ctx.op("nanpercentile:" + m)
     ctx.nontrivial = A.has_split(chunks)
     ctx.sig = ("B", case["shape"], case["dtype"], case["flavour"], case["seed"], case["chunks"], axis, q, m, kd)
     ctx.distinct("nanpercentile_path", (fast, len(chunks[ax]) > 1, isinstance(q, list), kd))
     try:
-        r, rv, mm = _eval_b(x, chunks, q, axis, m, kd)
+        r, rv, mm = _eval_b(x, chunks, q, axis, m, kd, opts, case["seed"])
     except NotImplementedError as ex:
         ctx.unsupported(str(ex))
         return
@@ -463,7 +731,7 @@ def _run_b(case, ctx):
             # classifier (causal minimisation): keep `inf` / `all-nan-slice` only if the symptom needs them
             def still(x2):
                 try:
-                    m2 = _eval_b(x2, chunks, q, axis, m, kd)[2]
+                    m2 = _eval_b(x2, chunks, q, axis, m, kd, opts, case["seed"])[2]
                 except Exception:  # noqa: BLE001
                     return True
                 return m2 is not None and m2[0] == mm[0]
@@ -474,7 +742,8 @@ def _run_b(case, ctx):
                 x3 = x.copy()
                 first = np.zeros(x.shape, dtype=bool)
                 sl = [slice(None)] * x.ndim
-                sl[ax] = slice(0, 1)
+                for a_ in axes:
+                    sl[a_] = slice(0, 1)
                 first[tuple(sl)] = True
                 x3[np.broadcast_to(allnan, x.shape) & first] = 0
                 if not still(x3):
@@ -490,16 +759,50 @@ def _run_b(case, ctx):
     srng = S.rng_for(case, salt="b")
     u = srng.random()
     q2, m2, axis2, kd2 = q, m, axis, kd
-    if u < 0.2 and x.ndim >= 2:
+    if u < 0.2 and x.ndim >= 2 and isinstance(axis, int) and not (opts.get("weights") or "").startswith("1d"):
         param, axis2 = "axis", srng.choice([a for a in range(x.ndim) if a != ax])
     elif u < 0.35:
         param, kd2 = "keepdims", not kd
     else:
         param, q2, m2 = _sibling_qm(case, q, m)
+        if opts.get("weights"):
+            m2 = m                      # weights are only defined for inverted_cdf
+            if param == "method":
+                param, q2 = "q", ([50] if isinstance(q, list) else (50 if q != 50 else 25))
+        elif opts and param == "method":
+            m2 = srng.choice([v for v in ALLM if v != m])
         if param == "q" and isinstance(q2, list):
             q2 = list(q)            # nanpercentile takes q in the given order
             i = srng.randrange(len(q2))
             q2[i] = srng.choice([v for v in (0, 10, 25, 50, 62.5, 90, 100) if v != q2[i]])
+    wd = _weights_b(x, chunks, axis, opts["weights"], case["seed"])[1] if opts.get("weights") else None
     S.check(ctx, "nanpercentile", param, r,
-            (lambda: da.nanpercentile(da.from_array(x, chunks=chunks), q2, axis=axis2, method=m2, keepdims=kd2)), va=rv,
+            (lambda: _call_b(da.from_array(x, chunks=chunks), q2, axis2, m2, kd2, opts, wd)), va=rv,
             describe={"q": q2, "method": m2, "axis": axis2, "keepdims": kd2})
+
+
+def _count_b(ctx, case, x, chunks, axes, m, opts):
+    if m not in METHODS:
+        ctx.count("nanpercentile_further_methods")
+    ctx.distinct("nanpercentile_methods", m)
+    if isinstance(case["axis"], list):
+        ctx.count("nanpercentile_axis_tuple")
+        if any(len(chunks[a]) > 1 for a in axes):
+            ctx.count("nanpercentile_axis_tuple_split")
+    if case["axis"] is None:
+        ctx.count("nanpercentile_axis_none")
+    if opts.get("weights"):
+        ctx.count("nanpercentile_weights")
+        ctx.distinct("nanpercentile_weight_kinds", opts["weights"])
+    if opts.get("kw") == "interpolation":
+        ctx.count("nanpercentile_interpolation_kw")
+    if opts.get("qform") in ("nparray", "tuple", "npfloat"):
+        ctx.count("nanpercentile_q_not_list_or_python_scalar")
+    if x.ndim == 4:
+        ctx.count("nanpercentile_4d")
+    if max(x.shape) > 1000 and any(x.shape[a] > 1000 for a in axes):
+        ctx.count("nanpercentile_reduced_axis_gt_1000")
+    elif any(x.shape[a] > 255 for a in axes):
+        ctx.count("nanpercentile_reduced_axis_256_1000")
+    if case["dtype"] in ("int8", "int32"):
+        ctx.count("nanpercentile_further_dtypes")
